@@ -37,7 +37,7 @@ ASSUMPTIONS = [
     "don't-care classes of ttsem and bounds/invariant-only invalidity are excluded from judgement",
 ]
 SHARD_TIMEOUT = {"quick": 600, "thorough": 5400}
-BOUNDS = {"quick": dict(n=700, plans=3), "thorough": dict(n=7000, plans=3)}
+BOUNDS = {"quick": dict(n=1000, plans=3), "thorough": dict(n=20000, plans=3)}
 PROFILE = dict(int_params=0.15)
 
 
@@ -52,12 +52,16 @@ def run_shard(spec, res):
         run_case(key, spec["tier"], b, res)
     if spec["shard"] == 0:
         run_examples(spec["tier"], res)
+        if spec["tier"] == "thorough":
+            run_up_test_cases(spec["tier"], res)
 
 
 def replay(witness, res):
     tier = witness.get("tier", "quick")
     if witness.get("example"):
         run_examples(tier, res, only=witness["example"])
+    elif witness.get("up_test_case"):
+        run_up_test_cases(tier, res)
     else:
         run_case(witness["case_key"], tier, BOUNDS[tier], res)
 
@@ -224,6 +228,53 @@ def run_examples(tier, res, only=None):
                         res.count("examples_judged")
                 except Unsupported:
                     res.count("examples_skipped_unsupported")
+
+
+def run_up_test_cases(tier, res):
+    """Labelled time-triggered plans of the up_test_cases built-ins (needs /repo/up_test_cases itself on sys.path)."""
+    import os
+    import sys
+
+    from unified_planning.engines.plan_validator import TimeTriggeredPlanValidator
+    from unified_planning.model import Problem
+    from unified_planning.plans import TimeTriggeredPlan
+
+    root = os.path.join(_env.REPO, "up_test_cases")
+    if not os.path.isdir(root):
+        res.count("up_test_cases_unavailable")
+        return
+    if root not in sys.path:
+        sys.path.insert(0, root)
+    try:
+        import builtin as _builtin  # noqa
+
+        tcs = _builtin.get_test_cases()
+    except Exception:
+        res.count("up_test_cases_unavailable")
+        return
+    for name, tc in sorted(tcs.items()):
+        pb = tc.problem
+        if type(pb) is not Problem or not TimeTriggeredPlanValidator.supports(pb.kind) or pb.kind.has_simulated_effects():
+            continue
+        for label, plans in ((True, tc.valid_plans), (False, tc.invalid_plans)):
+            for k, pl in enumerate(plans):
+                if not isinstance(pl, TimeTriggeredPlan):
+                    continue
+                try:
+                    if len(seqsem_ground(pb)) > 600:
+                        res.count("up_test_cases_skipped_too_large")
+                        continue
+                    v = judge_pair(pb, ttsem.steps_of_plan(pl), {"up_test_case": name, "tier": tier, "label": label, "k": k}, res, pid="tc:" + name, label=label)
+                    if v is not None:
+                        res.count("up_test_cases_judged")
+                except Unsupported:
+                    res.count("up_test_cases_skipped_unsupported")
+
+
+def seqsem_ground(pb):
+    from vk.ref import seqsem
+
+    return seqsem.ground_fluents(pb)
 
 
 REQUIRED = ["class:openness", "class:coinciding", "class:intermediate", "class:timed", "class:duration"]
